@@ -826,3 +826,31 @@ func StripTSTables(ts []byte) []byte {
 	}
 	return out
 }
+
+// LargeTTML builds a TTML document with n cues (threshold-triggered code paths: parallel parsing, batching).
+func LargeTTML(r *prng.R, n int) Doc {
+	var b strings.Builder
+	b.WriteString(`<?xml version="1.0" encoding="UTF-8"?>` + "\n" + `<tt xml:lang="en" xmlns="http://www.w3.org/ns/ttml" xmlns:tts="http://www.w3.org/ns/ttml#styling"><head><styling><style xml:id="s0" tts:color="white"/></styling></head><body><div>` + "\n")
+	for i := 0; i < n; i++ {
+		st := ""
+		if r.Bool(0.3) {
+			st = ` style="s0"`
+		}
+		fmt.Fprintf(&b, `<p begin="%s" end="%s"%s>%s<br/>%s</p>`+"\n", stamp(i*1000, "."), stamp(i*1000+900, "."), st, asciiSentence(r, 1, 6), asciiSentence(r, 1, 4))
+	}
+	b.WriteString("</div></body></tt>\n")
+	return Doc{Name: fmt.Sprintf("large-ttml-%dcues", n), Format: "ttml", Data: []byte(b.String()), Cues: n, Gen: true}
+}
+
+// WithRun returns d with a run of n copies of fill inserted at a line boundary near the middle.
+func WithRun(d Doc, fill byte, n int) Doc {
+	k := len(d.Data) / 2
+	for k < len(d.Data) && d.Data[k] != '\n' {
+		k++
+	}
+	if k < len(d.Data) {
+		k++
+	}
+	b := append(append(append([]byte(nil), d.Data[:k]...), []byte(strings.Repeat(string(fill), n))...), d.Data[k:]...)
+	return Doc{Name: fmt.Sprintf("%s+run%dx%02x", d.Name, n, fill), Format: d.Format, Data: b, Cues: -1, Gen: true}
+}
